@@ -22,7 +22,8 @@ RULE = (
     "the stored versions alone. Small scope, exhaustive: for every pair of addresses (one focus address + one neighbour address "
     "chosen to be confusable with it - substring d-values, absent vs empty d, other kind / author) every arrival "
     "ORDER (all permutations) of histories of <= 5 events with in-order, out-of-order and equal timestamps. Beyond that, "
-    "seeded random histories of 15-40 events over the whole universe. Every step is judged on fresh dumps. "
+    "seeded random histories of 15-40 events over the whole universe, and one author holding 12-20 addresses of one kind on a relay "
+    "configured with max_limit 5. Timestamps equal, one second apart and further apart. Every step is judged on fresh dumps. "
     "Non-trivial = an accepted replaceable event whose address already had a stored version, or whose neighbour "
     "address had one (frame condition exercised). Distinct = distinct (backend, canonical history prefix)."
 )
@@ -33,14 +34,14 @@ ASSUMPTIONS = [
     "LMDB backend over /verif/shim (judged after writer idle); SQL = SQLite",
 ]
 MIN_NONTRIVIAL = {"quick": 400, "thorough": 4000}
-REQUIRED_COUNTERS = ["clause.older_removed", "clause.newest_kept", "clause.frame", "clause.refused_version_frame", "clause.odd_d_tag"]
+REQUIRED_COUNTERS = ["clause.older_removed", "clause.newest_kept", "clause.frame", "clause.refused_version_frame", "clause.odd_d_tag", "clause.low_max_limit_steps"]
 SHARD_TIMEOUT = {"quick": 500, "thorough": 3000}
 KINDS = [0, 3, 1, 10000, 19999, 30000, 39999]
 DVALS = [None, "BARE", "", "a", "ab", "abc", "é"]
 # legal but unusual d tags: further elements after the value (the address is the FIRST value), several d tags
 # (the first one counts), other tags before the d tag
 ODD_DVALS = [("x", "a"), ("y", "ab", "abc"), ("a", "x"), ("", "a"), "MULTI:a,ab", "MULTI:x,a", "AFTER:a", "AFTER:ab"]
-TS = [gen.T0 + 5, gen.T0 + 10, gen.T0 + 20, gen.T0 + 20]
+TS = [gen.T0 + 5, gen.T0 + 10, gen.T0 + 19, gen.T0 + 20, gen.T0 + 20, gen.T0 + 21]  # equal, one second apart, further apart
 
 
 def plan(tier, seed):
@@ -51,6 +52,8 @@ def plan(tier, seed):
             out.append({"backend": b, "mode": "perm", "case_seed": seed * 7919 + i, "n": 10 if tier == "quick" else 30})
         for i in range(nrand):
             out.append({"backend": b, "mode": "random", "case_seed": seed * 7919 + 1000 + i, "n": 4 if tier == "quick" else 12})
+        # a relay configured with a small max_limit (own process: the relay captures the option at import time)
+        out.append({"backend": b, "mode": "lowcap", "case_seed": seed * 7919 + 2000, "n": 3 if tier == "quick" else 10})
     return out
 
 
@@ -122,6 +125,19 @@ def random_history(r, n):
         kind = r.choice(KINDS)
         evs.append(mk(r.choice(keys), kind, r.choice(DVALS + ODD_DVALS if i % 3 == 0 else DVALS), r.choice(TS + [gen.T0 + 1, gen.T0 + 30]), 1000 + i,
                       poison=r.choice(["unhashable", "dict", "huge-kind-tag"]) if r.random() < 0.08 else None))
+    return evs
+
+
+def many_addresses_history(r):
+    """one author holding far more addresses of one kind than max_limit (5), then new versions of old ones"""
+    k = ref.key_from_seed("c09-a")
+    kind = r.choice([30000, 30078, 39999, 10000])
+    n = r.randint(12, 20)
+    evs = [ref.make_event(k, kind=kind if kind >= 30000 else 10000 + i, created_at=gen.T0 + i, tags=[["d", "item-%02d" % i]] if kind >= 30000 else [], content="v1 %d" % i) for i in range(n)]
+    order = list(range(n))
+    r.shuffle(order)
+    for j, i in enumerate(order[: n // 2]):
+        evs.append(ref.make_event(k, kind=kind if kind >= 30000 else 10000 + i, created_at=gen.T0 + 100 + j, tags=[["d", "item-%02d" % i]] if kind >= 30000 else [], content="v2 %d" % i))
     return evs
 
 
@@ -212,8 +228,8 @@ def classify_relation(E, v):
     return "same-address?"
 
 
-async def run_history(backend, history, counters):
-    rig = R.Rig(backend=backend, config={"analysis_delay": 0})
+async def run_history(backend, history, counters, config=None):
+    rig = R.Rig(backend=backend, config=dict({"analysis_delay": 0}, **(config or {})))
     await rig.start()
     viols, nontrivial = [], []
     try:
@@ -224,12 +240,17 @@ async def run_history(backend, history, counters):
     return viols, nontrivial
 
 
-async def run_many(backend, histories, counters):
+async def run_many(backend, histories, counters, config=None):
     """several histories in one relay instance: every history uses fresh keys?  No - the
     store is wiped between histories by using a new rig (cheap enough for LMDB/SQLite)"""
     viols, nontrivial = [], []
     for hs in histories:
-        v, nt = await run_history(backend, hs, counters)
+        v, nt = await run_history(backend, hs, counters, config)
+        if config:
+            for x in v:
+                x["replay"]["config"] = config
+                x["key"] += "/max_limit-%s" % config.get("max_limit")
+            counters.setdefault("clause", {})["low_max_limit_steps"] = counters["clause"].get("low_max_limit_steps", 0) + len(hs)
         viols.extend(v)
         nontrivial.extend(nt)
     return viols, nontrivial
@@ -242,9 +263,11 @@ def run_shard(spec):
         histories = perm_histories(r, spec["n"])
         r.shuffle(histories)
         histories = histories[: 60 if spec["n"] <= 10 else 400]
+    elif spec["mode"] == "lowcap":
+        histories = [many_addresses_history(r) for _ in range(spec["n"])]
     else:
         histories = [random_history(r, r.randint(15, 40)) for _ in range(spec["n"])]
-    viols, nontrivial = R.run(run_many, spec["backend"], histories, counters)
+    viols, nontrivial = R.run(run_many, spec["backend"], histories, counters, {"max_limit": 5} if spec["mode"] == "lowcap" else None)
     seen, out = {}, []
     for v in viols:
         seen[v["key"]] = seen.get(v["key"], 0) + 1
@@ -260,5 +283,5 @@ def run_shard(spec):
 
 def replay(rp, spec):
     counters = {}
-    v, nt = R.run(run_history, rp["backend"], rp["history"], counters)
+    v, nt = R.run(run_history, rp["backend"], rp["history"], counters, rp.get("config"))
     return {"evaluations": len(rp["history"]), "nontrivial": nt, "counters": counters, "violations": v, "samples": [], "inconclusive": []}
